@@ -153,6 +153,10 @@ def m2(ctx):
         argsops = [o for o, c in zip(ops, cl) if c == 'args']
         has_args = any(any(y.k == 'term' and y.a[0] == 'enumerate' for y in values_in(o)) or
                        any(y.k == 'elem' for y in values_in(o)) for o in argsops)
+        # the path may have assumed that there are no positional (keyword) arguments at all
+        if argsops and all(p.st.facts.get(('truthy', o)) is False or
+                           p.st.facts.get(('truthy', V('param', 'args', 'core'))) is False for o in argsops):
+            has_args = False
         if has_args:
             res['ignore/positional'][1] += 1
             if not _filter_tests(p.trace, 'args'):
@@ -390,7 +394,15 @@ def m3(ctx):
         for g in fn.nested.values():
             yield g
             yield from all_nested(g)
-    for g in all_nested(outer):
+    nested = list(all_nested(outer))
+    called = set()
+    for g in nested:
+        for n in ast.walk(g.node):
+            if isinstance(n, ast.Call) and isinstance(n.func, ast.Name):
+                called.add(n.func.id)
+    for g in nested:
+        if g.name in called and g.name not in ('wrapper',):
+            continue        # a helper called by another closure: judged inlined into its callers
         for p in ctx.paths(g, 'plain'):
             for e in p.trace:
                 if _is_user_call(e):
